@@ -310,5 +310,5 @@ with open(os.path.join(ROOT, "mutation_log.md"), "w") as f:
     f.write("| seed | property | change | needs | caught by (quick) | note |\n|---|---|---|---|---|---|\n")
     for m in rows:
         f.write("| %s | %s | %s | %s | %s | %s |\n" % (m["seed"], m["property"], m["change"], m["needs_to_manifest"], ", ".join(m["caught_by_quick"]) or "-", m["note"] or ""))
-    f.write("\nOwn deliberate changes used while building (each reverted immediately): sign of `A c` in `FunctionComposition::update_decision` (C02: caught), label factors swapped in `PolyhedraGen::next` (C03: caught), `Error => Infeasible` and skipped containment check in `phase_two` (C11: caught), variable index replaced by position in `write_lincomb` and swapped edge labels in `Dot` (C19: caught), `reduce` skipping "the root" by `value.index == 0` instead of `get_root_idx()` (C08: caught on the re-rooted arenas only - RootNode panic on about 1100 cases; the pinned suite only builds trees rooted at node 0), the pre-fix trees of findings F01-F20 (each reported by the check named in DESIGN.md section 6).\n")
+    f.write("\nOwn deliberate changes used while building (each reverted immediately): sign of `A c` in `FunctionComposition::update_decision` (C02: caught), label factors swapped in `PolyhedraGen::next` (C03: caught), `Error => Infeasible` and skipped containment check in `phase_two` (C11: caught), variable index replaced by position in `write_lincomb` and swapped edge labels in `Dot` (C19: caught), `reduce` skipping the root by `value.index == 0` instead of `get_root_idx()` (C08: caught on the re-rooted arenas only - RootNode panic on about 1100 cases; the pinned suite only builds trees rooted at node 0), the pre-fix trees of findings F01-F20 (each reported by the check named in DESIGN.md section 6).\n")
 print("%d seeds assembled" % len(rows))
